@@ -125,9 +125,14 @@ class _Phase:
         self.c, self.s = c, s
 
     def __mul__(self, o):
+        if isinstance(o, complex) and o.real == 0 and o.imag in (1.0, -1.0):
+            return _IPhase(self, o.imag)      # 1j*phase: the argument of exp(i*phase)
         return self          # phase*2.0*pi: scaling a uniformly random phase is again a generic phase
 
     __rmul__ = __mul__
+
+    def __neg__(self):
+        return _Phase(self.c, SR(z3.RealVal(0)) - self.s)
 
     def cos(self):
         return self.c
@@ -136,10 +141,25 @@ class _Phase:
         return self.s
 
 
+class _IPhase:
+    """i*phase (or -i*phase): only exp() of it is defined, the unit phasor"""
+    def __init__(self, ph, sign):
+        self.ph, self.sign = ph, sign
+
+    def exp(self):
+        return SC(self.ph.c, self.ph.s if self.sign > 0 else SR(z3.RealVal(0)) - self.ph.s)
+
+
+def _exp_any(a):
+    if isinstance(a, rnp.ndarray) and a.dtype == object and a.size and all(isinstance(e, _IPhase) for e in a.flat):
+        return oarr([e.exp() for e in a])
+    return NumpyShim().exp(a)
+
+
 def _fftnoise_sym(W, f_arr):
     import speckit.noise as Nz
     cap = _Capture()
-    NP = NumpyShim(fft=cap, cos=lambda a: oarr([e.cos() for e in a]), sin=lambda a: oarr([e.sin() for e in a]))
+    NP = NumpyShim(fft=cap, cos=lambda a: oarr([e.cos() for e in a]), sin=lambda a: oarr([e.sin() for e in a]), exp=_exp_any)
     G = clone_module(Nz, dict(np=NP))
     x = G["fftnoise"](f_arr, rng=PhasorRng(W))
     if not isinstance(x, _Series):
@@ -179,7 +199,7 @@ def ob_band(W, N):
     if W.sym:
         W.assume(sr > 0); W.assume(hi >= lo); W.assume(hi * 2 <= sr)
         cap = _Capture()
-        NP = NumpyShim(fft=cap, cos=lambda a: oarr([e.cos() for e in a]), sin=lambda a: oarr([e.sin() for e in a]))
+        NP = NumpyShim(fft=cap, cos=lambda a: oarr([e.cos() for e in a]), sin=lambda a: oarr([e.sin() for e in a]), exp=_exp_any)
         G = clone_module(Nz, dict(np=NP))
         x = G["band_limited_noise"](lo, hi, samples=N, samplerate=sr, rng=PhasorRng(W))
         if not isinstance(x, _Series):
